@@ -660,7 +660,8 @@ Proof.
     - inversion E4; subst. auto. }
   destruct Hs4 as [Hd4 Hv4].
   match goal with |- context [scan_configs P ?S ?F ?N] => destruct (scan_configs P S F N) as [s5|] eqn:ES end; [|discriminate].
-  intros H; inversion H; subst. apply scan_configs_spec in ES. destruct ES as [E1 E2]. rewrite E1, E2. auto.
+  intros H; inversion H; subst. apply scan_configs_spec in ES. destruct ES as [E1 E2].
+  match goal with |- context [if ?B then _ else _] => destruct B end; [change (dproj s5 = dproj img /\ v_term s5 = d_term img)|]; rewrite E1, E2; auto.
 Qed.
 
 Lemma boot_spec P img r out : wfd img -> boot P img = (r, out) ->
